@@ -209,7 +209,8 @@ func codecRoundTrips(w *World, n int) {
 			return
 		}
 		for j := range vec {
-			if !(vec[j] == back[j] || (vec[j] != vec[j] && back[j] != back[j])) {
+			// the shortest decimal form identifies the float32, sign of zero included; only a NaN's payload is not spelled
+			if !(math.Float32bits(vec[j]) == math.Float32bits(back[j]) || (vec[j] != vec[j] && back[j] != back[j])) {
 				w.Fail("codec_roundtrip", "vector_decimal_value", fmt.Sprintf("component %v read back %v", vec[j], back[j]), -1)
 				return
 			}
